@@ -974,3 +974,161 @@ proof fn lemma_wf_concat(m: Seq<(Seq<char>, J)>, ex: Seq<(Seq<char>, J)>)
         assert((m + ex).last() == ex[ex.len() - 1]);
     }
 }
+
+// ---- top level: the signed payload and the verifier's `u_top` ----
+spec fn extras_of(u: Seq<(Seq<char>, J)>, hk: Option<jsonwebtoken::jwk::Jwk>) -> Seq<(Seq<char>, J)> {
+    let e1 = seq![(K_SD_ALG(), J::Str("sha-256"@))] + only_root(u);
+    match hk { Some(k) => e1.push(("cnf"@, cnf_j(k))), None => e1 }
+}
+proof fn lemma_lits()
+    ensures K_SD_ALG() != K_SD(), K_SD_ALG() != K_DOTS(), !is_root_key(K_SD_ALG()), !is_root_key(K_SD()), !is_root_key(K_DOTS()), !is_root_key("cnf"@),
+        "cnf"@ != K_SD(), "cnf"@ != K_DOTS(), "cnf"@ != K_SD_ALG(), "iss"@ != "iat"@, "iss"@ != "exp"@, "iat"@ != "exp"@,
+        "jwk"@ != K_SD(), "jwk"@ != K_DOTS(),
+{
+    reveal_strlit("_sd_alg"); reveal_strlit("_sd"); reveal_strlit("..."); reveal_strlit("cnf"); reveal_strlit("iss"); reveal_strlit("iat"); reveal_strlit("exp"); reveal_strlit("jwk");
+    assert("_sd_alg"@.len() == 7 && "_sd"@.len() == 3 && "..."@.len() == 3 && "cnf"@.len() == 3 && "iss"@.len() == 3 && "iat"@.len() == 3 && "exp"@.len() == 3 && "jwk"@.len() == 3);
+    assert("cnf"@[0] == 'c' && "iss"@[0] == 'i' && "iat"@[0] == 'i' && "exp"@[0] == 'e' && "_sd"@[0] == '_' && "..."@[0] == '.' && "jwk"@[0] == 'j');
+    assert("iss"@[1] == 's' && "iat"@[1] == 'a');
+}
+proof fn lemma_without_root_no_root(m: Seq<(Seq<char>, J)>)
+    ensures forall|i: int| 0 <= i < without_root(m).len() ==> !is_root_key((#[trigger] without_root(m)[i]).0)
+    decreases m.len()
+{
+    if m.len() > 0 {
+        lemma_without_root_no_root(m.drop_last());
+        let w = without_root(m); let w0 = without_root(m.drop_last());
+        if !is_root_key(m.last().0) {
+            assert forall|i: int| 0 <= i < w.len() implies !is_root_key((#[trigger] w[i]).0) by { if i < w0.len() { assert(w[i] == w0[i]); } }
+        }
+    }
+}
+proof fn lemma_j_append_fresh(a: Seq<(Seq<char>, J)>, b: Seq<(Seq<char>, J)>)
+    requires keys_unique(b), forall|i: int| 0 <= i < b.len() ==> !j_has(a, (#[trigger] b[i]).0)
+    ensures j_append(a, b) == a + b
+    decreases b.len()
+{
+    if b.len() == 0 { assert(a + b =~= a); } else {
+        let b0 = b.drop_last();
+        assert forall|i: int| 0 <= i < b0.len() implies !j_has(a, (#[trigger] b0[i]).0) by { assert(b0[i] == b[i]); }
+        lemma_j_append_fresh(a, b0);
+        let t = a + b0;
+        let k = b.last().0;
+        lemma_j_has_iff(t, k);
+        lemma_j_has_iff(a, k);
+        assert(!j_has(a, b[b.len() - 1].0));
+        if j_has(t, k) {
+            let q = choose|q: int| 0 <= q < t.len() && #[trigger] t[q].0 == k;
+            if q < a.len() { assert(a[q].0 == k); } else { assert(b[q - a.len()].0 != b[b.len() - 1].0); }
+        }
+        assert(a + b =~= t.push(b.last()));
+    }
+}
+// only_root has unique names, taken from u
+proof fn lemma_only_root(u: Seq<(Seq<char>, J)>)
+    requires wf_j(J::Obj(u)), !has_reserved(J::Obj(u))
+    ensures keys_unique(only_root(u)),
+        forall|i: int| 0 <= i < only_root(u).len() ==> is_root_key((#[trigger] only_root(u)[i]).0) && j_get(u, only_root(u)[i].0) == Some(only_root(u)[i].1)
+            && wf_j(only_root(u)[i].1) && !has_reserved(only_root(u)[i].1),
+{
+    lemma_lits();
+    let r = only_root(u);
+    let a = opt_entry(u, "iss"@); let b = opt_entry(u, "iat"@); let c = opt_entry(u, "exp"@);
+    assert forall|i: int| 0 <= i < r.len() implies is_root_key((#[trigger] r[i]).0) && j_get(u, r[i].0) == Some(r[i].1) && wf_j(r[i].1) && !has_reserved(r[i].1) by {
+        let k = r[i].0;
+        if i < a.len() { assert(r[i] == a[i]); } else if i < a.len() + b.len() { assert(r[i] == b[i - a.len()]); } else { assert(r[i] == c[i - a.len() - b.len()]); }
+        lemma_j_idx(u, k);
+        lemma_entries_elem(u, j_idx(u, k));
+    }
+    assert forall|i: int, j: int| 0 <= i < j < r.len() implies r[i].0 != r[j].0 by {
+        if i < a.len() { assert(r[i] == a[i]); } else if i < a.len() + b.len() { assert(r[i] == b[i - a.len()]); } else { assert(r[i] == c[i - a.len() - b.len()]); }
+        if j < a.len() { assert(r[j] == a[j]); } else if j < a.len() + b.len() { assert(r[j] == b[j - a.len()]); } else { assert(r[j] == c[j - a.len() - b.len()]); }
+    }
+}
+
+// C01, structural part: the verifier's algorithm on the signed payload of an issuance and ANY map of genuine disclosures of
+// that issuance accepts; before the hash-algorithm marker is removed its result is the view of the claim object
+//   (user claims without iss/iat/exp) ++ [_sd_alg] ++ [iss, iat, exp as present] ++ [cnf when a holder key is bound]
+// in which a designated member / element is present iff its disclosure is in the map; the always-visible members are never hidden.
+proof fn thm_c01(u: Seq<(Seq<char>, J)>, s: Strat, p0: Seq<(Seq<char>, J)>, hk: Option<jsonwebtoken::jwk::Jwk>, ds: DS, dm: DM)
+    requires wf_j(J::Obj(u)), !has_reserved(J::Obj(u)), !j_has(u, K_SD_ALG()),
+        hk is Some ==> !j_has(u, "cnf"@) && wf_j(jwk_to_j(hk->Some_0)) && !has_reserved(jwk_to_j(hk->Some_0)),
+        enc(J::Obj(without_root(u)), s, J::Obj(p0), ds, 0), sep(J::Obj(without_root(u)), s, J::Obj(p0), ds, 0),
+        hcount(J::Obj(without_root(u)), s) <= ds.len(),
+        genuine(dm, ds), distinct_hashes(ds), no_decoy_clash(ds),
+    ensures ({
+        let m2 = without_root(u) + extras_of(u, hk); let s2 = masked(s, extras_of(u, hk)); let pl = asm(p0, only_root(u), hk);
+        u_val(J::Obj(pl), dm, Set::<Dig>::empty()) matches UR::Ok(v2, c) && v2 is Obj && is_view(v2, J::Obj(m2), s2, ds, 0, dm)
+            && u_top(pl, dm) == UR::Ok(J::Obj(j_remove_key(v2->Obj_0, K_SD_ALG())), c) })
+{
+    let m = without_root(u);
+    let ex = extras_of(u, hk);
+    let root = only_root(u);
+    lemma_lits();
+    lemma_consts();
+    lemma_without_root_ok(u);
+    lemma_without_root_no_root(u);
+    lemma_only_root(u);
+    // names of the marked object p0: the digest list or visible members of m, hence of u
+    assert forall|k: Seq<char>| j_has(p0, k) implies k == K_SD() || (j_has(u, k) && !is_root_key(k)) by {
+        lemma_j_has_iff(p0, k);
+        let q = choose|q: int| 0 <= q < p0.len() && #[trigger] p0[q].0 == k;
+        if k != K_SD() {
+            let i = choose|i: int| 0 <= i < m.len() && #[trigger] m[i].0 == p0[q].0 && !sd_spec(s, m[i].0);
+            let pp = choose|pp: int| 0 <= pp < u.len() && #[trigger] u[pp] == m[i];
+            lemma_j_has_iff(u, k);
+            assert(u[pp].0 == k);
+        }
+    }
+    // the payload is p0 followed by the extras
+    let e1 = seq![(K_SD_ALG(), J::Str("sha-256"@))] + root;
+    let a1 = j_insert(p0, K_SD_ALG(), J::Str("sha-256"@));
+    assert(a1 == p0.push((K_SD_ALG(), J::Str("sha-256"@))));
+    assert forall|i: int| 0 <= i < root.len() implies !j_has(a1, (#[trigger] root[i]).0) by {
+        lemma_j_has_iff(a1, root[i].0);
+        if j_has(a1, root[i].0) {
+            let q = choose|q: int| 0 <= q < a1.len() && #[trigger] a1[q].0 == root[i].0;
+            if q < p0.len() { assert(p0[q].0 == root[i].0); lemma_j_has_iff(p0, root[i].0); }
+        }
+    }
+    lemma_j_append_fresh(a1, root);
+    let p1 = j_append(a1, root);
+    assert(p1 =~= p0 + e1);
+    assert(!j_has(p1, "cnf"@) || hk is None) by {
+        if hk is Some {
+            lemma_j_has_iff(p1, "cnf"@);
+            if j_has(p1, "cnf"@) {
+                let q = choose|q: int| 0 <= q < p1.len() && #[trigger] p1[q].0 == "cnf"@;
+                if q < p0.len() { assert(p0[q].0 == "cnf"@); lemma_j_has_iff(p0, "cnf"@); }
+                else if q > p0.len() { assert(root[q - p0.len() - 1].0 == "cnf"@); }
+            }
+        }
+    }
+    let pl = asm(p0, root, hk);
+    assert(pl =~= p0 + ex);
+    // the extras are clear, well-formed, with fresh names
+    assert(extras_ok(m, ex)) by {
+        assert forall|e: int| 0 <= e < ex.len() implies wf_j((#[trigger] ex[e]).1) && !has_reserved(ex[e].1) && !reserved(ex[e].0) by {
+            if e == 0 { } else if e <= root.len() { assert(ex[e] == root[e - 1]); } else {
+                let jw = jwk_to_j(hk->Some_0);
+                let cm = seq![("jwk"@, jw)];
+                assert(cm.drop_last() =~= Seq::<(Seq<char>, J)>::empty());
+                assert(wf_entries(cm) && !has_reserved_entries(cm)) by { reveal_with_fuel(wf_entries, 2); reveal_with_fuel(has_reserved_entries, 2); }
+                assert(keys_unique(cm));
+            }
+        }
+        assert forall|e: int, f: int| 0 <= e < f < ex.len() implies ex[e].0 != ex[f].0 by {
+            if e >= 1 && e <= root.len() { assert(ex[e] == root[e - 1]); }
+            if f >= 1 && f <= root.len() { assert(ex[f] == root[f - 1]); }
+            if e >= 1 && f <= root.len() { assert(root[e - 1].0 != root[f - 1].0); }
+        }
+        assert forall|e: int, i: int| 0 <= e < ex.len() && 0 <= i < m.len() implies (#[trigger] ex[e]).0 != (#[trigger] m[i]).0 by {
+            let pp = choose|pp: int| 0 <= pp < u.len() && #[trigger] u[pp] == m[i];
+            lemma_j_has_iff(u, m[i].0);
+            assert(u[pp].0 == m[i].0);
+            if e >= 1 && e <= root.len() { assert(ex[e] == root[e - 1]); }
+        }
+    }
+    lemma_extras(m, s, p0, ex, ds, 0);
+    let m2 = m + ex; let s2 = masked(s, ex);
+    thm_val(J::Obj(m2), s2, J::Obj(pl), ds, 0, dm, Set::<Dig>::empty());
+}
